@@ -8,7 +8,8 @@
       occurrence of it in the source (regenerated `Mpir.Gen.globalUses`, clang AST, local pointer aliases
       followed) is read-only: loaded, compared, `sizeof`, or passed to a pointer-to-const parameter.
   (2) `documented_cells_writers`: the functions that contain a store to (or hand out a mutable pointer to)
-      each documented cell are exactly the documented setters — on the binary and on the source.
+      each documented cell are exactly the documented setters — on the binary and on the source;
+      `documented_cells_reach`: so are the functions from which such a writer is reachable by direct calls.
   (3) `interleaving_irrelevant_cells`: schedule independence with read-shared cells (a thread's footprint of
       cells that no other thread writes); `read_shared_schedule_independent`: histories in which no thread
       writes a cell after thread creation; `api_readers_schedule_independent` for the API model.
@@ -77,6 +78,17 @@ def sameSet (a b : List String) : Bool := a.all (b.contains ·) && b.all (a.cont
 theorem documented_cells_writers : ∀ p ∈ documentedWriters,
     sameSet (binWriters p.1) p.2 = true ∧ sameSet (srcWriters p.1) p.2 = true := by
   decide +kernel
+
+/-- Which API calls write the documented cells: the functions of the library from which a writer of the cell is
+    reachable through direct calls are exactly the documented setters themselves — `mp_set_memory_functions`,
+    `mpf_set_default_prec`, and the obsolete random functions `mpn_random`, `mpn_random2`, `mpf_random2`; nothing
+    writes `gmp_errno`.  (`__gmp_junk`, the sink of the deliberate division by zero, is left out: every function that
+    can raise an exception reaches it, on the way to a fatal signal.) -/
+theorem documented_cells_reach : ∀ p ∈ documentedWriters, p.1 ≠ "__gmp_junk" →
+    sameSet ((cellReach.filter (fun q => q.1 == p.1)).map (fun q => q.2)) p.2 = true := by
+  decide +kernel
+
+example : (cellReach.filter (fun q => q.1 == "__gmp_rands")).length = 3 := by decide +kernel
 
 /-- every documented cell has an entry, and the table is not vacuous -/
 example : documentedShared.all (fun c => (documentedWriters.map (·.1)).contains c) = true ∧
